@@ -547,10 +547,10 @@ pub open spec fn pdec_post(o: ProcedureDeclaration, n: ProcedureDeclaration, ot:
             let ghost l0 = local_table;
 //@ before "build_variables_loop("
 let ghost lm = local_table;
-            let ghost ps = parameters@;
             
 //@ before "let entry = ProcedureEntry {"
 let ghost lf = local_table;
+            let ghost ps = parameters@;
             
 //@ before "\n        }\n    }\n}"
 
